@@ -1,7 +1,7 @@
 ---- MODULE DiscoveryProtocol ----
 (***************************************************************************)
-(* The computation part of pydcop/infrastructure/discovery.py at the level *)
-(* of its messages: the Discovery object of each agent (client side), the  *)
+(* pydcop/infrastructure/discovery.py (computations, replicas, agents) at   *)
+(* the level of its messages: the Discovery object of each agent (client side), the  *)
 (* Directory + DirectoryComputation (directory side) and the two FIFO      *)
 (* channels between each agent and the directory.  Discovery.tla states    *)
 (* WHAT must hold after a history of API calls; this module says HOW the   *)
@@ -14,6 +14,10 @@
 (*   Rep / Unrep            Discovery.register_replica / unregister_replica *)
 (*   RSub / RSubCb / RUnsub Discovery.subscribe_replica without / with a    *)
 (*                          callback, unsubscribe_replica(c)               *)
+(*   ASub / ASubCb / AUnsub Discovery.subscribe_agent / unsubscribe_agent   *)
+(*   AUnreg / AReg          the agent leaves (unregister_agent: refused     *)
+(*                          while its own view says it hosts something),    *)
+(*                          and registers again (register_agent)           *)
 (*   DeliverUp(a)           DirectoryComputation handles the oldest        *)
 (*                          message of a: _on_publish_computation,         *)
 (*                          _on_unpublish_computation,                     *)
@@ -35,14 +39,17 @@
 (* to state under which histories the views are known NOT to converge.      *)
 (***************************************************************************)
 EXTENDS Integers, Sequences, FiniteSets, TLC, Json
-CONSTANTS Agents, Comps, MaxOps, WithReplicas
+CONSTANTS Agents, Comps, MaxOps, WithReplicas, WithAgents
 
 VARIABLES host, sub, vHost, key, pcb, ocb, dHost, dSub, up, down, nops, dropped, pubsMade, pubsGot, act,
-          reps, subR, vRep, rkey, rpcb, dRep, dSubR, everUnreg, rdropped
+          reps, subR, vRep, rkey, rpcb, dRep, dSubR, everUnreg, rdropped,
+          gone, back, subAg, adropped, vAg, akey, apcb, dAg, dSubA
+aimpl == <<vAg, akey, apcb, dAg, dSubA>>
+aspec == <<gone, back, subAg, adropped>>
 rimpl == <<vRep, rkey, rpcb, dRep, dSubR>>
 rspec == <<reps, subR, rdropped>>
-impl == <<vHost, key, pcb, ocb, dHost, dSub, up, down, rimpl>>
-vars == <<host, sub, impl, nops, dropped, pubsMade, pubsGot, act, rspec, everUnreg>>
+impl == <<vHost, key, pcb, ocb, dHost, dSub, up, down, rimpl, aimpl>>
+vars == <<host, sub, impl, nops, dropped, pubsMade, pubsGot, act, rspec, everUnreg, aspec>>
 
 Init == /\ host = [c \in Comps |-> ""] /\ sub = [a \in Agents |-> {}]
         /\ vHost = [a \in Agents |-> [c \in Comps |-> ""]]
@@ -56,13 +63,16 @@ Init == /\ host = [c \in Comps |-> ""] /\ sub = [a \in Agents |-> {}]
         /\ vRep = [a \in Agents |-> [c \in Comps |-> {}]]
         /\ rkey = [a \in Agents |-> [c \in Comps |-> FALSE]] /\ rpcb = [a \in Agents |-> [c \in Comps |-> 0]]
         /\ dRep = [c \in Comps |-> {}] /\ dSubR = [c \in Comps |-> {}]
+        /\ gone = {} /\ back = {} /\ subAg = [a \in Agents |-> {}] /\ adropped = {}
+        /\ vAg = [a \in Agents |-> {a}] /\ akey = [a \in Agents |-> [b \in Agents |-> FALSE]] /\ apcb = [a \in Agents |-> [b \in Agents |-> 0]]
+        /\ dAg = Agents /\ dSubA = [b \in Agents |-> {}]
 
 Send(a, m) == up' = [up EXCEPT ![a] = Append(@, m)]
 Send2(a, m1, m2) == up' = [up EXCEPT ![a] = Append(Append(@, m1), m2)]
 PubC(c, a) == [t |-> "pub", c |-> c, a |-> a]
 UnpubC(c, a) == [t |-> "unpub", c |-> c, a |-> a]
 SubC(c, on) == [t |-> "sub", c |-> c, a |-> IF on THEN "on" ELSE "off"]
-Op(n, a, c) == /\ nops < MaxOps /\ nops' = nops + 1 /\ act' = [n |-> n, a |-> a, c |-> c]
+Op(n, a, c) == /\ nops < MaxOps /\ nops' = nops + 1 /\ act' = [n |-> n, a |-> a, c |-> c] /\ (n # "areg" => a \notin gone)
 
 \* the callbacks of an entry fire: the one-shot ones are removed afterwards, the entry stays
 Fired(a, c) == ocb' = [ocb EXCEPT ![a][c] = 0]
@@ -75,7 +85,7 @@ Reg(a, c) ==
   /\ IF vHost[a][c] # a /\ key[a][c] THEN Fired(a, c) ELSE ocb' = ocb
   /\ Send(a, PubC(c, a))
   /\ pubsMade' = [pubsMade EXCEPT ![c] = Append(@, a)]
-  /\ UNCHANGED <<sub, key, pcb, dHost, dSub, down, dropped, pubsGot, rimpl, rspec, everUnreg>>
+  /\ UNCHANGED <<sub, key, pcb, dHost, dSub, down, dropped, pubsGot, rimpl, rspec, everUnreg, aimpl, aspec>>
 
 \* unsubscribe_computation(c, None) as a function of the entry: what is left of it, and whether the directory is told
 UnsubAll(a, c) ==
@@ -87,7 +97,7 @@ Unreg(a, c) ==
   /\ host[c] = a /\ Op("unreg", a, c)
   /\ IF vHost[a][c] # a
      THEN \* the agent's own view names nobody (logged) or another agent (ValueError): the call changes nothing
-          UNCHANGED <<host, sub, impl, dropped, pubsMade, pubsGot, rspec, everUnreg>>
+          UNCHANGED <<host, sub, impl, dropped, pubsMade, pubsGot, rspec, everUnreg, aspec>>
      ELSE LET u == UnsubAll(a, c) IN
           /\ host' = [host EXCEPT ![c] = ""] /\ everUnreg' = everUnreg \cup {c}
           /\ sub' = [sub EXCEPT ![a] = @ \ {c}]
@@ -96,25 +106,25 @@ Unreg(a, c) ==
           /\ key' = [key EXCEPT ![a][c] = u.keep]
           /\ pcb' = [pcb EXCEPT ![a][c] = 0] /\ ocb' = [ocb EXCEPT ![a][c] = 0]
           /\ IF u.tell THEN Send2(a, SubC(c, FALSE), UnpubC(c, a)) ELSE Send(a, UnpubC(c, a))
-          /\ UNCHANGED <<dHost, dSub, down, pubsMade, pubsGot, rimpl, rspec>>
+          /\ UNCHANGED <<dHost, dSub, down, pubsMade, pubsGot, rimpl, rspec, aimpl, aspec>>
 
 Sub(a, c) ==
   /\ host[c] # a /\ Op("sub", a, c)
   /\ sub' = [sub EXCEPT ![a] = @ \cup {c}]
   /\ Send(a, SubC(c, TRUE))
-  /\ UNCHANGED <<host, vHost, key, pcb, ocb, dHost, dSub, down, dropped, pubsMade, pubsGot, rimpl, rspec, everUnreg>>
+  /\ UNCHANGED <<host, vHost, key, pcb, ocb, dHost, dSub, down, dropped, pubsMade, pubsGot, rimpl, rspec, everUnreg, aimpl, aspec>>
 SubCb(a, c) ==
   /\ host[c] # a /\ pcb[a][c] < 2 /\ Op("subcb", a, c)
   /\ sub' = [sub EXCEPT ![a] = @ \cup {c}]
   /\ key' = [key EXCEPT ![a][c] = TRUE] /\ pcb' = [pcb EXCEPT ![a][c] = @ + 1]
   /\ IF key[a][c] THEN up' = up ELSE Send(a, SubC(c, TRUE))
-  /\ UNCHANGED <<host, vHost, ocb, dHost, dSub, down, dropped, pubsMade, pubsGot, rimpl, rspec, everUnreg>>
+  /\ UNCHANGED <<host, vHost, ocb, dHost, dSub, down, dropped, pubsMade, pubsGot, rimpl, rspec, everUnreg, aimpl, aspec>>
 SubOne(a, c) ==
   /\ host[c] # a /\ ocb[a][c] < 2 /\ Op("subone", a, c)
   /\ sub' = [sub EXCEPT ![a] = @ \cup {c}]
   /\ key' = [key EXCEPT ![a][c] = TRUE] /\ ocb' = [ocb EXCEPT ![a][c] = @ + 1]
   /\ IF key[a][c] THEN up' = up ELSE Send(a, SubC(c, TRUE))
-  /\ UNCHANGED <<host, vHost, pcb, dHost, dSub, down, dropped, pubsMade, pubsGot, rimpl, rspec, everUnreg>>
+  /\ UNCHANGED <<host, vHost, pcb, dHost, dSub, down, dropped, pubsMade, pubsGot, rimpl, rspec, everUnreg, aimpl, aspec>>
 Unsub(a, c) ==
   /\ c \in sub[a] /\ Op("unsub", a, c)
   /\ LET u == UnsubAll(a, c) IN
@@ -123,11 +133,11 @@ Unsub(a, c) ==
      /\ key' = [key EXCEPT ![a][c] = u.keep]
      /\ pcb' = [pcb EXCEPT ![a][c] = 0] /\ ocb' = [ocb EXCEPT ![a][c] = 0]
      /\ IF u.tell THEN Send(a, SubC(c, FALSE)) ELSE up' = up
-  /\ UNCHANGED <<host, vHost, dHost, dSub, down, pubsMade, pubsGot, rimpl, rspec, everUnreg>>
+  /\ UNCHANGED <<host, vHost, dHost, dSub, down, pubsMade, pubsGot, rimpl, rspec, everUnreg, aimpl, aspec>>
 UnsubCb(a, c) ==
   /\ pcb[a][c] >= 2 /\ Op("unsubcb", a, c)
   /\ pcb' = [pcb EXCEPT ![a][c] = @ - 1]
-  /\ UNCHANGED <<host, sub, vHost, key, ocb, dHost, dSub, up, down, dropped, pubsMade, pubsGot, rimpl, rspec, everUnreg>>
+  /\ UNCHANGED <<host, sub, vHost, key, ocb, dHost, dSub, up, down, dropped, pubsMade, pubsGot, rimpl, rspec, everUnreg, aimpl, aspec>>
 
 \* ---- client API, replicas ------------------------------------------------------------
 comp == <<host, sub, vHost, key, pcb, ocb, dHost, dSub, dropped, pubsMade, pubsGot>>
@@ -142,25 +152,25 @@ Rep(a, c) ==
           /\ vRep' = [vRep EXCEPT ![a][c] = @ \cup {a}]
           /\ Send(a, RepMsg(c, a, TRUE))
           /\ UNCHANGED <<subR, rdropped, rkey, rpcb, dRep, dSubR>>
-  /\ UNCHANGED <<comp, down, everUnreg>>
+  /\ UNCHANGED <<comp, down, everUnreg, aimpl, aspec>>
 Unrep(a, c) ==
   /\ WithReplicas /\ a \in reps[c] /\ Op("unrep", a, c)
   /\ reps' = [reps EXCEPT ![c] = @ \ {a}]
   /\ IF a \in vRep[a][c]
      THEN /\ vRep' = [vRep EXCEPT ![a][c] = @ \ {a}] /\ Send(a, RepMsg(c, a, FALSE))
      ELSE UNCHANGED <<vRep, up>>      \* (the agent dropped what it knew of the replicas when it unsubscribed: nothing is un-published)
-  /\ UNCHANGED <<subR, rdropped, rkey, rpcb, dRep, dSubR, comp, down, everUnreg>>
+  /\ UNCHANGED <<subR, rdropped, rkey, rpcb, dRep, dSubR, comp, down, everUnreg, aimpl, aspec>>
 RSub(a, c) ==
   /\ WithReplicas /\ (host[c] = a \/ c \in sub[a]) /\ Op("rsub", a, c)
   /\ subR' = [subR EXCEPT ![a] = @ \cup {c}]
   /\ Send(a, RSubMsg(c, TRUE))
-  /\ UNCHANGED <<reps, rdropped, vRep, rkey, rpcb, dRep, dSubR, comp, down, everUnreg>>
+  /\ UNCHANGED <<reps, rdropped, vRep, rkey, rpcb, dRep, dSubR, comp, down, everUnreg, aimpl, aspec>>
 RSubCb(a, c) ==
   /\ WithReplicas /\ (host[c] = a \/ c \in sub[a]) /\ rpcb[a][c] < 2 /\ Op("rsubcb", a, c)
   /\ subR' = [subR EXCEPT ![a] = @ \cup {c}]
   /\ rkey' = [rkey EXCEPT ![a][c] = TRUE] /\ rpcb' = [rpcb EXCEPT ![a][c] = @ + 1]
   /\ IF rkey[a][c] THEN up' = up ELSE Send(a, RSubMsg(c, TRUE))
-  /\ UNCHANGED <<reps, rdropped, vRep, dRep, dSubR, comp, down, everUnreg>>
+  /\ UNCHANGED <<reps, rdropped, vRep, dRep, dSubR, comp, down, everUnreg, aimpl, aspec>>
 \* unsubscribe_replica(c): when the directory is told, everything known about the replicas of c is dropped (the agent's own too)
 RUnsub(a, c) ==
   /\ WithReplicas /\ c \in subR[a] /\ Op("runsub", a, c)
@@ -170,7 +180,7 @@ RUnsub(a, c) ==
      ELSE /\ rkey' = [rkey EXCEPT ![a][c] = FALSE] /\ rpcb' = [rpcb EXCEPT ![a][c] = 0]
           /\ vRep' = [vRep EXCEPT ![a][c] = {}]
           /\ Send(a, RSubMsg(c, FALSE))
-  /\ UNCHANGED <<reps, dRep, dSubR, comp, down, everUnreg>>
+  /\ UNCHANGED <<reps, dRep, dSubR, comp, down, everUnreg, aimpl, aspec>>
 
 \* ---- directory side -----------------------------------------------------------------
 Added(c, b) == [t |-> "added", c |-> c, a |-> b]
@@ -183,12 +193,12 @@ CONSTANT AgentOrder
 SeqOf(S) == SelectSeq(AgentOrder, LAMBDA x : x \in S)
 NotifySeq(a, ms) == down' = [down EXCEPT ![a] = @ \o ms]
 NotifyTwice(S, m) == down' = [x \in Agents |-> IF x \in S THEN Append(Append(down[x], m), m) ELSE down[x]]
-DeliverUp(a) ==
-  /\ up[a] # <<>>
-  /\ LET m == Head(up[a]) IN
-     /\ up' = [up EXCEPT ![a] = Tail(@)]
-     /\ act' = [n |-> "up", a |-> a, c |-> m.t]
-     /\ CASE m.t = "pub" ->
+AgMsgKinds == {"asub", "pubA", "unpubA"}
+AgAdded(b) == [t |-> "agAdded", c |-> "", a |-> b]
+AgRemoved(b) == [t |-> "agRemoved", c |-> "", a |-> b]
+\* the handlers of the computation and replica messages
+UpOld(a, m) ==
+  CASE m.t = "pub" ->
                /\ dHost' = [dHost EXCEPT ![m.c] = m.a]
                /\ NotifyAll(dSub[m.c], Added(m.c, m.a))
                /\ pubsGot' = [pubsGot EXCEPT ![m.c] = Append(@, m.a)]
@@ -227,7 +237,40 @@ DeliverUp(a) ==
           [] OTHER ->
                /\ dSubR' = [dSubR EXCEPT ![m.c] = @ \ {a}]
                /\ UNCHANGED <<dHost, dSub, down, pubsGot, dRep>>
-  /\ UNCHANGED <<host, sub, vHost, key, pcb, ocb, nops, dropped, pubsMade, vRep, rkey, rpcb, rspec, everUnreg>>
+
+\* the handlers of the agent messages: _on_subscribe_agent, _on_publish_agent, _on_unpublish_agent
+UpAgent(a, m) ==
+  CASE m.t = "asub" /\ m.a = "on" ->
+         /\ dSubA' = [dSubA EXCEPT ![m.c] = @ \cup {a}]
+         \* an agent the directory does not know: 'Unknown agent on lookup', nothing is answered (the finding of C20)
+         /\ IF m.c \in dAg THEN NotifyAll({a}, AgAdded(m.c)) ELSE down' = down
+         /\ UNCHANGED <<dAg, dHost, dSub>>
+    [] m.t = "asub" ->
+         /\ dSubA' = [dSubA EXCEPT ![m.c] = @ \ {a}]
+         /\ UNCHANGED <<dAg, dHost, dSub, down>>
+    [] m.t = "pubA" ->
+         /\ dAg' = dAg \cup {m.a}
+         /\ NotifyAll(dSubA[m.a], AgAdded(m.a))
+         /\ UNCHANGED <<dSubA, dHost, dSub>>
+    [] OTHER ->
+         \* Directory.unregister_agent: refused (DiscoveryException) while the directory has a computation on that agent; otherwise
+         \* the agent's own subscriptions (to agents and computations - not to replicas) are dropped, then the others are told
+         IF (\E c \in Comps : dHost[c] = m.a) \/ m.a \notin dAg
+         THEN UNCHANGED <<dAg, dSubA, dHost, dSub, down>>
+         ELSE /\ dAg' = dAg \ {m.a}
+              /\ dSubA' = [b \in Agents |-> dSubA[b] \ {m.a}]
+              /\ dSub' = [c \in Comps |-> dSub[c] \ {m.a}]
+              /\ NotifyAll(dSubA[m.a] \ {m.a}, AgRemoved(m.a))
+              /\ dHost' = dHost
+DeliverUp(a) ==
+  /\ up[a] # <<>>
+  /\ LET m == Head(up[a]) IN
+     /\ up' = [up EXCEPT ![a] = Tail(@)]
+     /\ act' = [n |-> "up", a |-> a, c |-> m.t]
+     /\ IF m.t \in AgMsgKinds
+        THEN UpAgent(a, m) /\ UNCHANGED <<pubsGot, dRep, dSubR>>
+        ELSE UpOld(a, m) /\ UNCHANGED <<dAg, dSubA>>
+  /\ UNCHANGED <<host, sub, vHost, key, pcb, ocb, nops, dropped, pubsMade, vRep, rkey, rpcb, rspec, everUnreg, vAg, akey, apcb, aspec>>
 
 \* ---- client side, notifications ---------------------------------------------------------
 DeliverDown(a) ==
@@ -238,30 +281,82 @@ DeliverDown(a) ==
      /\ CASE m.t = "added" ->
              /\ vHost' = [vHost EXCEPT ![a][m.c] = m.a]
              /\ IF vHost[a][m.c] # m.a /\ key[a][m.c] THEN Fired(a, m.c) ELSE ocb' = ocb
+             \* (the notification carries the host's address: an agent not known yet is registered locally on the way)
+             /\ vAg' = [vAg EXCEPT ![a] = @ \cup {m.a}]
              /\ vRep' = vRep
           [] m.t = "removed" ->
              \* a removal naming another agent than the one the view holds (or nobody) is ignored (58bc4f6)
              /\ vHost' = IF vHost[a][m.c] = m.a THEN [vHost EXCEPT ![a][m.c] = ""] ELSE vHost
-             /\ ocb' = ocb /\ vRep' = vRep
+             /\ ocb' = ocb /\ vRep' = vRep /\ vAg' = vAg
           [] m.t = "repAdded" ->
              \* a replica of a computation the agent does not know (any more) is ignored (0ac87b7)
              /\ vRep' = IF vHost[a][m.c] # "" THEN [vRep EXCEPT ![a][m.c] = @ \cup {m.a}] ELSE vRep
-             /\ UNCHANGED <<vHost, ocb>>
-          [] OTHER ->
+             /\ UNCHANGED <<vHost, ocb, vAg>>
+          [] m.t = "repRemoved" ->
              /\ vRep' = [vRep EXCEPT ![a][m.c] = @ \ {m.a}]
-             /\ UNCHANGED <<vHost, ocb>>
-  /\ UNCHANGED <<host, sub, key, pcb, dHost, dSub, up, nops, dropped, pubsMade, pubsGot, rkey, rpcb, dRep, dSubR, rspec, everUnreg>>
+             /\ UNCHANGED <<vHost, ocb, vAg>>
+          [] m.t = "agAdded" ->
+             /\ vAg' = [vAg EXCEPT ![a] = @ \cup {m.a}]
+             /\ UNCHANGED <<vHost, ocb, vRep>>
+          [] OTHER ->
+             \* Discovery.unregister_agent(b, publish=False): what the view says b hosts is un-registered locally, then b is forgotten
+             /\ vHost' = [vHost EXCEPT ![a] = [c \in Comps |-> IF vHost[a][c] = m.a THEN "" ELSE vHost[a][c]]]
+             /\ vAg' = [vAg EXCEPT ![a] = @ \ {m.a}]
+             /\ UNCHANGED <<ocb, vRep>>
+  /\ UNCHANGED <<host, sub, key, pcb, dHost, dSub, up, nops, dropped, pubsMade, pubsGot, rkey, rpcb, dRep, dSubR, rspec, everUnreg,
+                 akey, apcb, dAg, dSubA, aspec>>
+
+\* ---- client API, agents ------------------------------------------------------------------
+others == <<comp, rimpl, rspec, everUnreg, down>>
+ASubMsg(b, on) == [t |-> "asub", c |-> b, a |-> IF on THEN "on" ELSE "off"]
+ASub(a, b) ==
+  /\ WithAgents /\ a # b /\ Op("asub", a, b)
+  /\ subAg' = [subAg EXCEPT ![a] = @ \cup {b}]
+  /\ Send(a, ASubMsg(b, TRUE))
+  /\ UNCHANGED <<gone, back, adropped, aimpl, others>>
+ASubCb(a, b) ==
+  /\ WithAgents /\ a # b /\ apcb[a][b] < 2 /\ Op("asubcb", a, b)
+  /\ subAg' = [subAg EXCEPT ![a] = @ \cup {b}]
+  /\ akey' = [akey EXCEPT ![a][b] = TRUE] /\ apcb' = [apcb EXCEPT ![a][b] = @ + 1]
+  /\ IF akey[a][b] THEN up' = up ELSE Send(a, ASubMsg(b, TRUE))
+  /\ UNCHANGED <<gone, back, adropped, vAg, dAg, dSubA, others>>
+AUnsub(a, b) ==
+  /\ WithAgents /\ b \in subAg[a] /\ Op("aunsub", a, b)
+  /\ subAg' = [subAg EXCEPT ![a] = @ \ {b}] /\ adropped' = adropped \cup {<<a, b>>}
+  /\ IF akey[a][b] /\ apcb[a][b] = 0
+     THEN UNCHANGED <<akey, apcb, up>>
+     ELSE /\ akey' = [akey EXCEPT ![a][b] = FALSE] /\ apcb' = [apcb EXCEPT ![a][b] = 0] /\ Send(a, ASubMsg(b, FALSE))
+  /\ UNCHANGED <<gone, back, vAg, dAg, dSubA, others>>
+\* the agent leaves: refused (DiscoveryException) while its own view says it hosts something
+AUnreg(a) ==
+  /\ WithAgents /\ Op("aunreg", a, "")
+  /\ IF \E c \in Comps : vHost[a][c] = a
+     THEN UNCHANGED <<aspec, aimpl, up>>
+     ELSE /\ gone' = gone \cup {a}
+          /\ vAg' = [vAg EXCEPT ![a] = @ \ {a}]
+          /\ Send(a, [t |-> "unpubA", c |-> "", a |-> a])
+          /\ UNCHANGED <<back, subAg, adropped, akey, apcb, dAg, dSubA>>
+  /\ UNCHANGED others
+\* ... and registers again
+AReg(a) ==
+  /\ WithAgents /\ a \in gone /\ a \notin back /\ Op("areg", a, "")
+  /\ back' = back \cup {a}
+  /\ vAg' = [vAg EXCEPT ![a] = @ \cup {a}]
+  /\ Send(a, [t |-> "pubA", c |-> "", a |-> a])
+  /\ UNCHANGED <<gone, subAg, adropped, akey, apcb, dAg, dSubA, others>>
 
 Quiet == \A a \in Agents : up[a] = <<>> /\ down[a] = <<>>
 Done == Quiet /\ nops = MaxOps /\ UNCHANGED vars
 Next == (\E a \in Agents, c \in Comps : Reg(a, c) \/ Unreg(a, c) \/ Sub(a, c) \/ SubCb(a, c) \/ SubOne(a, c) \/ Unsub(a, c) \/ UnsubCb(a, c)
                                           \/ Rep(a, c) \/ Unrep(a, c) \/ RSub(a, c) \/ RSubCb(a, c) \/ RUnsub(a, c))
+        \/ (\E a, b \in Agents : ASub(a, b) \/ ASubCb(a, b) \/ AUnsub(a, b))
+        \/ (\E a \in Agents : AUnreg(a) \/ AReg(a))
         \/ (\E a \in Agents : DeliverUp(a) \/ DeliverDown(a)) \/ Done
 Spec == Init /\ [][Next]_vars
 
 \* ---- properties (C20, computations) -------------------------------------------------------
 \* the statement itself: at quiescence the view of every computation an agent is still subscribed to is the directory's
-Converged == Quiet => \A a \in Agents : \A c \in sub[a] : vHost[a][c] = dHost[c]
+Converged == Quiet => \A a \in Agents \ gone : \A c \in sub[a] : vHost[a][c] = dHost[c]
 \* ... and the directory knows who hosts what
 DirectoryTrue == Quiet => \A c \in Comps : dHost[c] = host[c]
 \* Both are violated by the code (the known findings of C20): TLC's counterexamples are replayed on the real objects.
@@ -272,23 +367,30 @@ Overtook(c) == \E i \in 1..Len(pubsGot[c]) : pubsGot[c][i] # pubsMade[c][i]
 DirectoryTrueInOrder == Quiet => \A c \in Comps : ~Overtook(c) => dHost[c] = host[c]
 \* (2) an agent that subscribed to a computation and never dropped it (no unsubscription, no un-registration by itself) agrees
 \* with the directory
-ConvergedIfNeverDropped == Quiet => \A a \in Agents : \A c \in sub[a] : <<a, c>> \notin dropped => vHost[a][c] = dHost[c]
+ConvergedIfNeverDropped == Quiet => \A a \in Agents \ gone : \A c \in sub[a] : <<a, c>> \notin dropped => vHost[a][c] = dHost[c]
 \* (3) the directory still counts as subscriber every agent that is subscribed
-SubscribedAtDirectory == Quiet => \A a \in Agents : \A c \in sub[a] : a \in dSub[c]
+SubscribedAtDirectory == Quiet => \A a \in Agents \ gone : \A c \in sub[a] : a \in dSub[c]
 \* (4) a view never names a host the computation never had
 ViewsNameRealHosts == \A a \in Agents : \A c \in Comps : vHost[a][c] \in {""} \cup {pubsMade[c][i] : i \in 1..Len(pubsMade[c])}
 
 \* replicas: the statement, and the directory's own table
-ReplicaConverged == Quiet => \A a \in Agents : \A c \in subR[a] : vRep[a][c] = dRep[c]
+ReplicaConverged == Quiet => \A a \in Agents \ gone : \A c \in subR[a] : vRep[a][c] = dRep[c]
 DirectoryRepTrue == Quiet => \A c \in Comps : dRep[c] = reps[c]
 \* Both are violated (known finding: a replica published while the computation's host un-registers it).  What holds: as long as
 \* the computation was never un-registered and the agent never dropped its replica subscription,
-ReplicaConvergedIfStable == Quiet => \A a \in Agents : \A c \in subR[a] : (c \notin everUnreg /\ <<a, c>> \notin rdropped) => vRep[a][c] = dRep[c]
+ReplicaConvergedIfStable == Quiet => \A a \in Agents \ gone : \A c \in subR[a] : (c \notin everUnreg /\ <<a, c>> \notin rdropped) => vRep[a][c] = dRep[c]
 DirectoryRepTrueIfStable == Quiet => \A c \in Comps : (c \notin everUnreg /\ \A a \in Agents : <<a, c>> \notin rdropped) => dRep[c] = reps[c]
+
+\* agents: the statement (an agent that follows another one knows it exactly when the directory does; the views of an agent that left
+\* are no longer compared)
+AgentConverged == Quiet => \A a \in Agents \ gone : \A b \in subAg[a] : (b \in vAg[a]) = (b \in dAg)
+\* violated (finding: re-subscription to an agent that left meanwhile).  What holds: for subscriptions that were never dropped
+AgentConvergedIfNeverDropped == Quiet => \A a \in Agents \ gone : \A b \in subAg[a] : <<a, b>> \notin adropped => (b \in vAg[a]) = (b \in dAg)
 
 \* ---- binding ---------------------------------------------------------------------------
 Proj == [vHost |-> vHost, key |-> key, pcb |-> pcb, ocb |-> ocb, dHost |-> dHost, dSub |-> dSub, up |-> up, down |-> down, nops |-> nops,
-         vRep |-> vRep, rkey |-> rkey, rpcb |-> rpcb, dRep |-> dRep, dSubR |-> dSubR]
-View == <<host, sub, impl, nops, dropped, pubsMade, pubsGot, rspec, everUnreg>>
+         vRep |-> vRep, rkey |-> rkey, rpcb |-> rpcb, dRep |-> dRep, dSubR |-> dSubR,
+         vAg |-> vAg, akey |-> akey, apcb |-> apcb, dAg |-> dAg, dSubA |-> dSubA]
+View == <<host, sub, impl, nops, dropped, pubsMade, pubsGot, rspec, everUnreg, aspec>>
 Edge == (Proj' = Proj /\ act' = act) \/ PrintT(<<"EDGE", ToJson(Proj), ToJson(act'), ToJson(Proj')>>)
 ====
